@@ -135,6 +135,11 @@ func c17Keys() []c17Key {
 		c17Key{Name: "malformed-ed25519-private-3-bytes", Pub: ed25519.PublicKey{1, 2, 3}, Priv: ed25519.PrivateKey{1, 2, 3}, Family: "none"},
 		c17Key{Name: "malformed-ed25519-private-65-bytes", Pub: ed25519.PublicKey{1, 2, 3}, Priv: ed25519.PrivateKey(make([]byte, 65)), Family: "none"},
 		c17Key{Name: "malformed-ed25519-private-128-bytes", Pub: ed25519.PublicKey{1, 2, 3}, Priv: ed25519.PrivateKey(make([]byte, 128)), Family: "none"},
+		// the same through a pointer (a *ed25519.PrivateKey is a crypto.Signer and, at the right length, an accepted EdDSA key)
+		c17Key{Name: "malformed-ed25519-private-pointer-10-bytes", Pub: ed25519.PublicKey{1, 2, 3}, Priv: func() crypto.Signer { k := ed25519.PrivateKey(make([]byte, 10)); return &k }(), Family: "none"},
+		c17Key{Name: "malformed-ed25519-private-pointer-empty", Pub: ed25519.PublicKey{1, 2, 3}, Priv: func() crypto.Signer { k := ed25519.PrivateKey{}; return &k }(), Family: "none"},
+		c17Key{Name: "malformed-ed25519-private-pointer-96-bytes", Pub: ed25519.PublicKey{1, 2, 3}, Priv: func() crypto.Signer { k := ed25519.PrivateKey(make([]byte, 96)); return &k }(), Family: "none"},
+		c17Key{Name: "malformed-ed25519-private-nil-pointer", Pub: ed25519.PublicKey{1, 2, 3}, Priv: (*ed25519.PrivateKey)(nil), Family: "none"},
 		// typed-nil private keys: touching them panics (inside the standard library), so only the algorithms that
 		// have no built-in signer are asked for - they are refused without looking at the key
 		c17Key{Name: "typed-nil-rsa-private-key", Priv: (*rsa.PrivateKey)(nil), Family: "typed-nil"},
